@@ -361,6 +361,19 @@ def run_history(ctx, seed):
             return [x for x in net.conns if owner_of(x) is p and x.sim_id < c.sim_id and x.orphaned_threshold_reached and x.signaled_error and
                     ('borrow_connection', x.sim_id) in asked and ('return_connection', x.sim_id) in asked]
 
+        def failed_while_being_replaced(p, c):
+            """connections of pool p older than c that reached the threshold (borrow_connection asked for the replacement), then FAILED while still being the
+            pool's connection (before _replace could set them aside) and were reported by return_connection, which asked for a replacement again"""
+            asked = set((w, cid) for w, cid, pid in pw.replace_log if pid == id(p))
+            out = []
+            for x in net.conns:
+                if owner_of(x) is p and x.sim_id < c.sim_id and x.orphaned_threshold_reached and x.is_defunct and x.signaled_error and \
+                        ('borrow_connection', x.sim_id) in asked and ('return_connection', x.sim_id) in asked:
+                    failed_at = [sn['trace_index'] for sn in pw.closes if sn['conn'] == x.sim_id]
+                    if failed_at and failed_at[0] <= pw.trashed_at.get(x.sim_id, 1 << 60):
+                        out.append(x)
+            return out
+
         with world.inspect():
             census = 0
             for c in pw.pool_conns():
@@ -378,6 +391,14 @@ def run_history(ctx, seed):
                 elif pname == 'HostConnection' and p.is_shutdown and not installed and c.sim_id in pw.trashed:
                     # it was seen in _trash and is not there any more: only shutdown()'s sweep removes an open connection from the trash
                     viol.append(('hostconnection-shutdown-never-closes-trash', where + ': it was in the pool\'s _trash and shutdown() emptied the trash without closing it'))
+                elif pname == 'HostConnection' and not installed and c.sim_creator == 'pool-replace' and failed_while_being_replaced(p, c):
+                    x = failed_while_being_replaced(p, c)[0]
+                    viol.append(('return-connection-drops-connection-installed-meanwhile', where + ': conn %d (threshold reached, replacement under way) failed; '
+                                 'return_connection found it to be the pool\'s connection, and while it signalled the failure _replace installed this connection; '
+                                 'return_connection then set _connection = None without closing it and asked for one more replacement' % x.sim_id))
+                elif p is not None and not p.is_shutdown and c.sim_creator == 'pool-init' and p not in session._pools.values() and pw.built_concurrently_for_same_host(p):
+                    viol.append(('concurrent-pool-creation-loser-never-shut-down', where + ': two add_or_renew_pool tasks built a pool for %s at the same time; the one '
+                                 'registered first was overwritten in Session._pools (`previous` was read before either finished) and never shut down' % (p.host,)))
                 elif pname == 'HostConnection' and late and c.sim_id not in pw.in_service and c.sim_creator == 'pool-replace' and p.is_shutdown:
                     viol.append(('replacement-installed-after-shutdown-left-open', where + ': _replace finished connecting while / after shutdown() ran and '
                                  'installed it (%s)' % ('it is still pool._connection' if installed else 'shutdown() then set _connection = None without closing it')))
